@@ -169,3 +169,23 @@ func (g *gen) refreshWithoutGrant(emit func(string, M) M) {
 		emit("Refresh", a)
 	}
 }
+
+// thirdPartyMatrix: third-party tokens (accepted by the storage in one position only) in both positions of a token exchange,
+// alone and next to tokens of the provider, for every token type that can be requested.
+func (g *gen) thirdPartyMatrix(emit func(string, M) M) {
+	ext := func(kind, user string) M { return M{"kind": kind, "form": "issued", "id": user, "declared": "jwt"} }
+	own, _, _ := lastNames(g.codeFlowOut("cw", emit))
+	subjects := []M{ext("extSubject", "u1"), ext("extActor", "u1")}
+	actors := []M{noActor, ext("extActor", "u2"), ext("extSubject", "u2")}
+	if own != "none" && own != "" {
+		subjects = append(subjects, atRef(own))
+		actors = append(actors, atRef(own))
+	}
+	for _, sj := range subjects {
+		for _, ac := range actors {
+			for _, rq := range []string{"access", "id", "refresh"} {
+				emit("TokenExchange", M{"caller": "cw", "cred": g.rightCred("cw"), "subj": sj, "actor": ac, "requested": rq, "scopes": []string{"openid"}})
+			}
+		}
+	}
+}
